@@ -33,7 +33,10 @@ def describe_diff(a, b):
 
 def run_case(ck, paths, idx, cls=None):
     rng = ck.rng.__class__(ck.seed * 122949829 + idx)
-    case = alnsrc.gen_alignment_input(rng, cls)
+    nl = None
+    if isinstance(cls, tuple):
+        cls, nl = cls
+    case = alnsrc.gen_alignment_input(rng, cls, nl)
     recs, kind = case["recs"], case["kind"]
     f = ck.tmp(".fa")
     common.write_bytes(f, fmt.write_fasta(recs))
@@ -167,10 +170,13 @@ def run(ck, tier):
     n = int((120 if tier == "quick" else 1500) * sc)
     classes = ["width", "width", "names_long", "names_special", "many_rows", "many_lines", "gapfree", "mixedcase", "bulk"]
     jobs = [(i, None) for i in range(n)]
+    # block-format line lengths swept one by one across 245..265 characters (longest name 175..200 with a full 60-column block)
+    for rep in range(1 if tier == "quick" else 4):
+        jobs += [(900000 + rep * 1000 + nl_, ("line_len_sweep", nl_)) for nl_ in range(175, 201)]
     # every width boundary at least once per run
     common.pmap(lambda j: run_case(ck, paths, j[0], j[1]), jobs, workers=12)
     ck.rule = ("alignments produced by kalign_run from generated families covering widths 1..600 incl. 59/60/61/119/120/121/180, 2..600 rows, outputs crossing 1024/2048 "
-               "lines, names of 1..200 characters over [A-Za-z0-9_.|-] incl. punctuation-only names, prefixes of each other and format words, mixed case, gap-free; each is "
+               "lines, names of 1..200 characters (longest name 175..200 swept one by one, i.e. block lines of 245..265 characters) over [A-Za-z0-9_.|-] incl. punctuation-only names, prefixes of each other and format words, mixed case, gap-free; each is "
                "written in three formats, read back (msa object compared field by field: names, residues, gaps[]), and converted through all (quick: 4 random) ordered "
                "format pairs. Non-trivial = alignment containing gaps.")
     ck.assumptions = ["names over the property's character set", "second hop of a gap-free alignment is not claimed (a gap-free file is by design not recognised as an alignment) but must not silently lose data"]
@@ -179,6 +185,7 @@ def run(ck, tier):
 def replay(ck, doc):
     paths = build("asan")
     ck.tier = "thorough"
-    run_case(ck, paths, doc["replay"]["idx"])
+    idx_ = doc["replay"]["idx"]
+    run_case(ck, paths, idx_, ("line_len_sweep", idx_ % 1000) if idx_ >= 900000 else None)
     with ck.lock:
         ck.nontrivial |= set(range(30))
